@@ -63,11 +63,12 @@ theorem C13_email_wrap (kind : Bytes) (c : Ctx) (hreq : c.cfg.emailAuth = true)
     · exact absurd (by simpa using h) hno
   simp only [this, Bool.false_eq_true, if_false]
   rw [bind_apply]
+  unfold M.swallowErr
   generalize M.redirect _ _ _ _ c = r
   obtain ⟨res, c'⟩ := r
   cases res with
   | ok a => exact ⟨c', Or.inl rfl⟩
-  | stop s => exact ⟨c', Or.inr ⟨s, rfl⟩⟩
+  | stop s => cases s <;> first | exact ⟨c', Or.inl rfl⟩ | exact ⟨c', Or.inr ⟨_, rfl⟩⟩
 
 theorem redirect_no_authed (r : Bytes) (ok f : Option Txt) (fl : Bool) (c : Ctx)
     (hm : Act.sess (.put .tfaAuthed (lit "true")) ∈ (M.redirect r ok f fl c).2.acts) :
